@@ -557,8 +557,15 @@ pub fn judge_read<T: Subject>(
     } else if nested_struct || top_dup || top_drop || top_unknown {
         expect_no_wrong_data(out, "structural fault");
     } else if top_reorder || nested_reorder {
-        if is_dec && !nested_reorder && !weak {
-            expect_ok_equal(out, "A3", "fields of Decomposed delivered in another order");
+        // A keyed medium holds an unordered set of named entries (a JSON object has no order): the
+        // same record delivered in another order is still "the result" of serialization, at every
+        // level and for every type, not only for Decomposed's own three fields.
+        if !weak {
+            if is_dec && !nested_reorder {
+                expect_ok_equal(out, "A3", "fields of Decomposed delivered in another order");
+            } else {
+                expect_ok_equal(out, "A3", "the named fields of a (nested) record delivered in another order");
+            }
         } else {
             expect_no_wrong_data(out, "reordered record");
         }
